@@ -806,22 +806,22 @@ theorem fact_import_opens_iff_not_exist :
 
 open Generated.RingOpen in
 /-- **The read-write entry points of the v2 `ServerKeyStore`.** The functions of `keystore/v2/keystore`
-that call `OpenKeyRingRW` are exactly these 26 methods (generators, savers, destroyers, rotated-key
+that call `OpenKeyRingRW` are exactly these 26 methods (sorted by name: generators, savers, destroyers, rotated-key
 destroyers, the four poison-key getters, the five importers reached from `ImportKeyFileV1`), **every one of
 them** opens its ring as its first action and returns the error of the open, and the ring path is one of
 the six path expressions of the store. A new read-write method, or one that does something before the
 open / swallows its error, changes this table. -/
 theorem fact_rw_entry_points :
-    rwEntryPoints.map (·.2.1) = ["ServerKeyStore.GenerateLogKey", "ServerKeyStore.importLogKey",
-      "ServerKeyStore.GenerateHmacKey", "ServerKeyStore.DestroyHmacSecretKey", "ServerKeyStore.DestroyRotatedHmacSecretKey", "ServerKeyStore.importHmacKey",
-      "ServerKeyStore.GetPoisonKeyPair", "ServerKeyStore.GetPoisonPrivateKeys", "ServerKeyStore.GetPoisonSymmetricKeys", "ServerKeyStore.GetPoisonSymmetricKey",
-      "ServerKeyStore.savePoisonKeyPair", "ServerKeyStore.GeneratePoisonSymmetricKey", "ServerKeyStore.DestroyPoisonKeyPair",
-      "ServerKeyStore.DestroyRotatedPoisonKeyPair", "ServerKeyStore.DestroyPoisonSymmetricKey", "ServerKeyStore.DestroyRotatedPoisonSymmetricKey",
-      "ServerKeyStore.GeneratePoisonKeyPair", "ServerKeyStore.importPoisonRecordSymmetricKey",
-      "ServerKeyStore.GenerateClientIDSymmetricKey", "ServerKeyStore.DestroyClientIDSymmetricKey", "ServerKeyStore.DestroyRotatedClientIDSymmetricKey",
-      "ServerKeyStore.importClientIDSymmetricKey",
-      "ServerKeyStore.GenerateDataEncryptionKeys", "ServerKeyStore.DestroyClientIDEncryptionKeyPair",
-      "ServerKeyStore.DestroyRotatedClientIDEncryptionKeyPair", "ServerKeyStore.SaveDataEncryptionKeys"] ∧
+    rwEntryPoints.map (·.2.1) = ["ServerKeyStore.DestroyClientIDEncryptionKeyPair", "ServerKeyStore.DestroyClientIDSymmetricKey",
+      "ServerKeyStore.DestroyHmacSecretKey", "ServerKeyStore.DestroyPoisonKeyPair", "ServerKeyStore.DestroyPoisonSymmetricKey",
+      "ServerKeyStore.DestroyRotatedClientIDEncryptionKeyPair", "ServerKeyStore.DestroyRotatedClientIDSymmetricKey",
+      "ServerKeyStore.DestroyRotatedHmacSecretKey", "ServerKeyStore.DestroyRotatedPoisonKeyPair", "ServerKeyStore.DestroyRotatedPoisonSymmetricKey",
+      "ServerKeyStore.GenerateClientIDSymmetricKey", "ServerKeyStore.GenerateDataEncryptionKeys", "ServerKeyStore.GenerateHmacKey",
+      "ServerKeyStore.GenerateLogKey", "ServerKeyStore.GeneratePoisonKeyPair", "ServerKeyStore.GeneratePoisonSymmetricKey",
+      "ServerKeyStore.GetPoisonKeyPair", "ServerKeyStore.GetPoisonPrivateKeys", "ServerKeyStore.GetPoisonSymmetricKey",
+      "ServerKeyStore.GetPoisonSymmetricKeys", "ServerKeyStore.SaveDataEncryptionKeys", "ServerKeyStore.importClientIDSymmetricKey",
+      "ServerKeyStore.importHmacKey", "ServerKeyStore.importLogKey", "ServerKeyStore.importPoisonRecordSymmetricKey",
+      "ServerKeyStore.savePoisonKeyPair"] ∧
     (rwEntryPoints.all fun r => r.2.2.2 == "open-first-return-err") = true ∧
     (rwEntryPoints.all fun r => ["auditLogSymmetricKeyPath", "poisonKeyPath", "poisonSymmetricKeyPath", "s.clientHMACKeyPath(clientID)",
       "s.clientStorageSymmetricKeyPath(clientID)", "s.clientStorageKeyPairPath(clientID)"].contains r.2.2.1) = true ∧
